@@ -1,3 +1,4 @@
 CONSTANT Want = {"C28_Mutex", "C28_Excludes", "C28_Available", "C28_TraceAccepted"}
+CONSTANT None = "none"
 SPECIFICATION TSpec
 CHECK_DEADLOCK FALSE
